@@ -127,10 +127,11 @@ func runC15Loop(c *sim.Ctx, t *testing.T) {
 		s.Go("store", func(tk *sim.Task) {
 			for {
 				sim.Yield("h#consume")
-				select {
-				case <-ctx.Done():
+				r, ok := sim.RecvOrDone("h#consume-select", ctx.Done(), (<-chan *Result)(cp.out))
+				if !ok {
 					return
-				case r := <-cp.out:
+				}
+				{
 					nres++
 					sim.Yield("h#consumed")
 					// a slow store: the write happens some steps after the result arrived
@@ -187,10 +188,8 @@ func runC15Loop(c *sim.Ctx, t *testing.T) {
 						msg = map[string]interface{}{"to": "h", "id": fmt.Sprintf("m%d.%d", r, nmsg)}
 					}
 					sim.Yield("h#send")
-					select {
-					case <-ctx.Done():
+					if !sim.SendOrDone("h#send-select", ctx.Done(), (chan<- interface{})(cp.in), vfJSONCopy(msg)) {
 						return
-					case cp.in <- vfJSONCopy(msg):
 					}
 					sim.Yield("h#sent")
 				}
